@@ -28,7 +28,7 @@ TRUSTED = [
 ASSUMPTIONS = [
     'object graphs stay forests: an object is attached at one place at a time and never below itself (sharing and cycles are outside)',
     'only one class has dependent methods; sub-objects have none; methods only log and, on chosen invocations, raise (caught by the harness around the triggering assignment); values are integers, object names come from a small set',
-    'path elements are object-valued parameters, the leaf is an integer parameter or `param` (only at depth 1); no slots (a.x:bounds); batching only as param.update / batch_call_watchers on one object around assignments to that object (distinct keys), no nesting',
+    'path elements are object-valued parameters, the leaf is an integer parameter, an object-valued parameter, or `param` (only at depth 1); no slots (a.x:bounds); batching only as param.update / batch_call_watchers on one object around assignments to that object (distinct keys), no nesting',
 ]
 RULE = ('directed histories (the design probes p5, p23 and their variants) + random histories: 1-2 dependent methods with 1-3 path '
         'specs of depth 1-3 under the same or different sub-objects (leaf x / y / param), 3-6 initial objects, a top object '
@@ -36,7 +36,7 @@ RULE = ('directed histories (the design probes p5, p23 and their variants) + ran
         'fresh objects, and leaf assignments on attached and detached objects (same and different values).  After every step '
         'the invocation log (with the values read) and the watcher tables and dynamic_watchers of all objects are compared with '
         'the model and judged by the oracle.  non-trivial = a method fired at least once and >=3 steps judged')
-COVERAGE_TARGETS = ['step:update', 'step:batch', 'step:method-raised', 'depth:1', 'depth:2', 'depth:3', 'deps:one', 'deps:several', 'leaf:param', 'fired',
+COVERAGE_TARGETS = ['leaf:object', 'step:update', 'step:batch', 'step:method-raised', 'depth:1', 'depth:2', 'depth:3', 'deps:one', 'deps:several', 'leaf:param', 'fired',
                     'step:attach', 'step:replace', 'step:detach', 'step:leaf-attached', 'step:leaf-detached', 'step:replace-equal']
 
 LOG = []
@@ -254,7 +254,9 @@ def _gen_specs(rng):
             path = list(shared[:rng.randint(1, depth)]) if rng.random() < 0.4 else list(shared)
         else:
             path = [rng.choice(OBJP) for _ in range(rng.randint(1, depth))]
-        leaf = 'param' if (len(path) == 1 and rng.random() < 0.12) else rng.choice(INTP)
+        r = rng.random()
+        # mostly an integer leaf; sometimes `param`, sometimes a sub-object-valued parameter itself ('a.b')
+        leaf = 'param' if (len(path) == 1 and r < 0.12) else (rng.choice(OBJP) if r > 0.85 else rng.choice(INTP))
         s = {'path': path, 'leaf': leaf}
         if s not in specs:
             specs.append(s)
@@ -393,6 +395,12 @@ def _directed():
     yield {'classes': _classes([_m('m0', 'a.x', 'b.y')]), 'steps': [
         _new(0, x=1), _new(0, y=1), _new(1, a=0, b=1), _new(0, x=2), _new(0, y=2), _upd(2, a=_ref(3), b=_ref(4)),
         _new(0, x=2), _new(0, y=3), _upd(2, a=_ref(5), b=_ref(6)), _new(0, x=2), _new(0, y=3), _upd(2, 'batch', a=_ref(7), b=_ref(8))]}
+    # a dependency on a sub-object parameter itself and, declared after it, on a leaf beneath it (and the
+    # opposite order): replacing the sub-object by a different one with the same leaf value must fire
+    for specs in (('a.b', 'a.b.x'), ('a.b.x', 'a.b')):
+        yield {'classes': _classes([_m('m0', *specs)]), 'steps': [
+            _new(0, x=1), _new(0, b=0), _new(1, a=1), _new(0, x=1), _set(1, 'b', _ref(3)), _set(3, 'x', 2),
+            _new(0, x=5), _set(1, 'b', _ref(4)), _set(1, 'b', None), _set(0, 'x', 9), _new(0, x=5), _set(1, 'b', _ref(5))]}
     # rejected values end the history
     yield {'classes': _classes([_m('m0', 'a.x')]), 'steps': [_new(0), _new(1, a=0), _set(1, 'a', 3)]}
     yield {'classes': _classes([_m('m0', 'a.x')]), 'steps': [_new(0), _new(1, a=0), _set(0, 'name', 1)]}
